@@ -11,64 +11,64 @@ TB = ("gcc 12 sanitizer runtimes, the harness and oracle code under /verif (vali
       "Linux pipe/epoll/timerfd semantics, VERIF_SEED-driven sampling: a pass means 'held on the executions of this run', not a proof")
 
 CHECKS = {
-    "C10": dict(tech="refcount reference model run in lock-step inside the harness + accounting allocator (m_set_memhook) under ASan/UBSan; exhaustive size sweep 0..4096",
+    "C10": dict(tech="refcount reference model run in lock-step inside the harness + accounting allocator (m_set_memhook, two allocators switched at quiescent points) under ASan/UBSan + a memcheck slice; exhaustive size sweep 0..4096, impossible sizes, destructors that lock their own block",
                 text="Every size 0..4096 is enumerated (alignment, size, bounds by ASan, release), then random ref/unref histories incl. nested destructors are compared op-by-op with a refcount model while an accounting allocator checks that the enclosing allocation is freed exactly once, after the destructor. Exploration: histories are sampled.",
                 ref="C10"),
-    "C11": dict(tech="sorted-array reference model in lock-step inside the harness under ASan/UBSan; all permutations of K<=7 (quick) / 8 (thorough) keys x every removal and iterator-removal position, plus random programs with far-apart pointer keys",
+    "C11": dict(tech="sorted-array reference model in lock-step inside the harness under ASan/UBSan; all permutations of K<=7 (quick) / 8 (thorough) keys x every removal and iterator-removal position, plus random programs with pointer keys spread over the whole 64-bit range; memcheck slice",
                 text="Small scope is enumerated completely (every insertion order of up to K keys, every single removal, every iterator-removal position, all removal subsets for K<=6), every result, traversal order and destructor argument is compared with a sorted array; pre/post-order are cross-checked by rebuilding the tree. Random programs beyond that are sampled.",
                 ref="C11"),
-    "C12": dict(tech="array reference models in lock-step inside the harness under ASan/UBSan; exhaustive enumeration of all programs up to length 5 (quick) / 6 (thorough) over a 16-letter op alphabet incl. iterator edits at first/middle/last, plus random long programs",
+    "C12": dict(tech="array reference models in lock-step inside the harness under ASan/UBSan; exhaustive enumeration of all programs up to length 5 (quick) / 6 (thorough) over a 16-letter op alphabet incl. iterator edits at first/middle/last (double removal through a list iterator), plus random long programs; memcheck slice",
                 text="All short programs are enumerated for queue, stack, list and list-with-comparator, with and without destructor; after every operation the container content, length and the destructor log are compared with an array model, and the container keeps being used after iterator edits. Longer programs are sampled.",
                 ref="C12"),
-    "C05": dict(tech="linear reference dictionary in lock-step inside the harness + per-operation allocator balance (m_set_memhook) under ASan/UBSan; adversarial key sets mined from the hash (same home slot, clusters wrapping the table end, growth)",
+    "C05": dict(tech="linear reference dictionary in lock-step inside the harness + per-operation allocator balance (m_set_memhook) under ASan/UBSan; adversarial key sets mined from the hash (same home slot, clusters wrapping the table end, one probe chain longer than half the table, growth, maps parked on the growth threshold with puts issued from inside the iterate callback); memcheck slice",
                 text="Random operation sequences over all flag combinations are compared call-by-call with a linear dictionary, including exactly-once visiting under removal during iteration, destructor argument identity and the allocation balance of every put/remove (private key copies). Key sets are adversarial by construction; sequences are sampled.",
                 ref="C05"),
-    "C06": dict(tech="stress workload on ASan and TSan builds with guarded hooks in thpool.c driving seeded delay injection and spurious wake-ups; monitors: per-task counters/stamps, concurrency gauge, pool-touched-after-free hook monitor, allocator balance, quiescence-based deadlock detector; TSan/ASan reports",
+    "C06": dict(tech="stress workload on ASan and TSan builds with guarded hooks in thpool.c driving seeded delay injection and spurious wake-ups; monitors: per-task counters/stamps, concurrency gauge, pool-touched-after-free hook monitor, allocator balance, quiescence-based deadlock detector; tasks submitting follow-up work to their own pool; pthread_create failures injected through --wrap; TSan/ASan reports",
                 text="Thousands of perturbed schedules per run over all pool flavours are observed by online monitors (exactly-once, argument identity, wait-all/wait-current completion relative to the stamp at which free returned, no pool access after free, gauge <= threads, logical deadlock criterion) plus the race detector. Schedules are sampled: the evidence reports distinct interleaving signatures seen.",
                 ref="C06"),
-    "C04": dict(tech="generated API programs with scripted re-entrant callbacks executed by the core_exec interpreter on the ASan+UBSan+LSan build, accounting allocator via m_set_memhook (free-of-unknown, outstanding table at quiescence), zombie and retained-event probes",
-                text="Every scenario profile (random mixed programs and hostile-lifetime templates: mailbox overflow, self stop/deregister/unsubscribe with mail in flight, cross-module stop inside one poll batch, events retained past source/module/context, auto-free fan-out) is executed under the sanitizers in both driving modes; a violation is any sanitizer report, an allocator verdict, or blocks outstanding after teardown. Memory safety is judged on the executions produced; red-zone limits apply.",
+    "C04": dict(tech="generated API programs with scripted re-entrant callbacks executed by the core_exec interpreter on the ASan+UBSan+LSan build, accounting allocator via m_set_memhook (free-of-unknown, outstanding table at quiescence), zombie and retained-event probes; a third of the scenarios run without the harness's observation references (so that released memory really is released); a slice re-run under valgrind memcheck",
+                text="Every scenario profile (random mixed programs and hostile-lifetime templates: mailbox overflow, self stop/deregister/unsubscribe with mail in flight, cross-module stop inside one poll batch, events retained past source/module/context, auto-free fan-out, last reference dropped inside callbacks and inside the final flush, context released with its last module, m_mod_bind followers attacking their leader, loop driven from callbacks, replacement under the old module's own name string) is executed under the sanitizers in both driving modes; a violation is any sanitizer report, an allocator verdict, or blocks outstanding after teardown. Memory safety is judged on the executions produced; red-zone limits apply.",
                 ref="C04"),
     "C01": dict(tech="offline trace oracle (documented-edge state machine with cause attribution, callback pairing, evaluation-pass and running-count rules) over dense state observations recorded by the core_exec interpreter running generated lifecycle programs with scripted re-entrant callbacks; plain build, both driving modes",
                 text="Hundreds (quick) to tens of thousands (thorough) of generated multi-module histories with every (state, call) pair issued from outside and from inside each callback kind and all eval/start result combinations are executed against the real library; the oracle judges every observed state change, every lifecycle return code, every callback and every evaluation pass. Histories are sampled, not enumerated.",
                 ref="C01"),
-    "C02": dict(tech="offline trace oracle over messaging traces with unique payload tokens (eligibility from observed states + tracked subscription sets, exactly-once, completeness at loop-run end, auto-free release timing from the accounting allocator's free events); plain build, both driving modes",
+    "C02": dict(tech="offline trace oracle over messaging traces with unique payload tokens (eligibility from observed states + tracked subscription sets, exactly-once, completeness at loop-run end, auto-free release timing from the accounting allocator's free events); messaging, hostile and idle_throttled profiles; plain build, both driving modes",
                 text="Generated many-to-many tell/publish/broadcast histories (literal and regex subscriptions, state changes, quit with mail pending, mailbox overflow bursts, auto-free fan-out 0/1/n) run against the real library; every delivery is matched to its send through the unique payload and judged for eligibility, uniqueness, content and loss, every auto-free payload for exactly-once release at the right time.",
                 ref="C02"),
-    "C08": dict(tech="offline trace oracle: linear scan per recipient of delivery order against non-overlapping send intervals (unique payload tokens), poison-pill before/after rules; ordering + messaging profiles with batching, pause/resume, several loop runs; plain build, both modes",
+    "C08": dict(tech="offline trace oracle: linear scan per recipient of delivery order against non-overlapping send intervals (unique payload tokens), poison-pill rules (nothing sent earlier is lost - batched or low-priority mail included -, nothing sent later is delivered until the recipient has been stopped, across pause/resume and loop restarts); ordering + messaging profiles with batching, pause/resume, several loop runs; plain build, both modes",
                 text="Per-recipient order of first-time deliveries is compared with the order of the send calls across tell/publish/broadcast, batches, handler invocations, loop restarts and the final flush; pills must neither overtake earlier mail nor let later mail through.",
                 ref="C08"),
-    "C19": dict(tech="offline trace oracle: every system-flagged delivery must be backed by an observed loop event or module transition of the named module (counting, per recipient), tick-rate bound from trace timestamps, count-based completeness for literal subscriptions held over whole loop runs; sysnotif profile, plain build, both modes",
+    "C19": dict(tech="offline trace oracle: every system-flagged delivery must be backed by an observed loop event or module transition of the named module (counting, per recipient), tick-rate bound from trace timestamps, count-based completeness for literal subscriptions held over whole loop runs (paused-and-resumed subscribers included), state-tracking rule (the last started/stopped notification about a module matches its state at the end of the run), no burst of stale ticks after a pause; sysnotif (with transitions nested in lifecycle callbacks) and tick_rearm profiles, plain build, both modes",
                 text="Transitions are the module state changes observed at every call/callback boundary; received system notifications are counted against them per (recipient, topic, named module) in both directions where the statement is unambiguous; tick notifications are bounded by elapsed time over period.",
                 ref="C19"),
-    "C03": dict(tech="offline trace oracle (event-to-registered-source matching incl. user-data tokens, one-shot rule, conservation of harness-written pipe tokens, loop-exit rule with requested quit code) + two-mode differential (blocking loop vs dispatch loop on the same scenario); sources profile with scripted errno poisoning in every callback and 1-100 descriptors ready per poll batch; plain build",
+    "C03": dict(tech="offline trace oracle (event-to-registered-source matching incl. user-data tokens, one-shot rule, conservation of harness-written pipe tokens, loop-exit rule with requested quit code) + two-mode differential (blocking loop vs dispatch loop on the same scenario); sources profile with scripted errno poisoning in every callback and 1-100 descriptors ready per poll batch; further profiles: one-shot subscription bursts, a signal shared by two modules with one-shot descriptors in the same batch, descriptors in error condition, a signal sent to the process while library task threads exist, tasks queued at loop stop (known finding); plain build",
                 text="Every delivered event is matched against the sources its module registered (kind, key, user-data token); tokens written into registered pipes are conserved; every loop run must end for a stated reason with the requested code whatever errno the callbacks leave; the deterministic deliveries of both driving modes are compared.",
                 ref="C03"),
-    "C09": dict(tech="offline trace oracle: reference keyed sets per (module, source kind) updated from every register/deregister call and compared with m_mod_src_len() observed after every record; registry profile with colliding key pools and extreme keys on idle/running/paused/stopped modules; plain build",
+    "C09": dict(tech="offline trace oracle: reference keyed sets per (module, source kind) updated from every register/deregister call and compared with m_mod_src_len() observed after every record; (total and per source kind); registry profile with colliding key pools and extreme keys on idle/running/paused/stopped modules, M_SRC_DUP descriptors, unpollable sources, library-internal timers (batch timeout, token bucket) on the periods of user timers; plain build",
                 text="Generated register/deregister sequences over all eight source kinds (keys from small colliding pools and extremes such as timer periods 2^32 apart, threshold pairs with equal sums) are judged call by call: new key accepted, present key -EEXIST, absent key refused, counts equal to the set sizes after every call, sets survive pause/resume and loop restart and vanish at stop.",
                 ref="C09"),
-    "C20": dict(tech="link-time wrapped descriptor ledger (close/pipe/dup/epoll_create1/timerfd_create/signalfd/inotify_init1/eventfd/pidfd_open of the library objects) + /proc/self/fd diff at quiescent points, judged by an offline oracle; sources/hostile/registry/mixed profiles with auto-close, dup and one-shot mixes; plain build",
+    "C20": dict(tech="link-time wrapped descriptor ledger (close/pipe/dup/epoll_create1/timerfd_create/signalfd/inotify_init1/eventfd/pidfd_open of the library objects) + /proc/self/fd diff at quiescent points, judged by an offline oracle; sources/hostile/registry/mixed profiles with auto-close, dup (also dup + auto-close: the user's descriptor and the duplicate) and one-shot mixes; plain build",
                 text="Every close() the library issues is classified against the ledger (own and open / user's with a released auto-close registration, once) and at quiescence nothing the library opened may remain while every auto-close descriptor whose source is gone must have been closed.",
                 ref="C20"),
-    "C13": dict(tech="offline trace oracle with an exact priority/batch-size model on serialised scenarios (handler invocation boundaries and contents compared batch by batch) + conservation on all scenarios; batching profile (sizes 0,1,2,3,7,64, LOW/NORMAL/HIGH subscriptions, descriptor source, pause/resume, stop/start probes, set-then-clear timeouts); plain build, both modes",
+    "C13": dict(tech="offline trace oracle with an exact priority/batch-size model on serialised scenarios (handler invocation boundaries and contents compared batch by batch) + conservation on all scenarios; batching profile (sizes 0,1,2,3,7,64, LOW/NORMAL/HIGH subscriptions, descriptor source, pause/resume, stop/start probes, set-then-clear timeouts in both call orders, token-bucket refill ticks with low-priority events pending, setters refused for lack of tokens); deterministic timeout-not-awaited rule for timeout-only stretches; plain build, both modes",
                 text="Production is serialised so that arrival order and the settings in force at each arrival are unambiguous; the sequence of handler invocations and the events each one carries must equal the model's; one extra hand-over at loop stop is tolerated. Timeout scenarios are judged for conservation and for immediate delivery once neither size nor timeout is configured.",
                 ref="C13"),
-    "C16": dict(tech="offline trace oracle: FIFO model of stashed event tokens per module, stash admission rules, unstash(n) return value and the single directly nested handler invocation with exactly the oldest events; stash_become profile; plain build, both modes",
+    "C16": dict(tech="offline trace oracle: FIFO model of stashed event tokens per module, stash admission rules, unstash(n) return value and the single directly nested handler invocation with exactly the oldest events, unchanged (user data included); refused calls (-EAGAIN) are no-ops; stash_become profile (throttled, deny-ctx and auto-free-userptr variants); plain build, both modes",
                 text="Generated stash/unstash(n) sequences (n from 1 to beyond the stash size and SIZE_MAX, from handlers and from outside, interleaved with deliveries, handler changes and stop/start) are judged call by call against a FIFO model using unique event tokens.",
                 ref="C16/C17"),
-    "C14": dict(tech="multi-threaded harness (one context per thread, 2-8 threads) run under ThreadSanitizer and AddressSanitizer; in-harness monitors (sender / user-data / descriptor belong to the receiving context, messages received == messages its own deterministic program sent), alone-vs-concurrent differential of per-context counters, foreign-thread call matrix over every non-getter m_mod_* prototype with the owner parked on a barrier",
+    "C14": dict(tech="multi-threaded harness (one context per thread, 2-8 threads) run under ThreadSanitizer and AddressSanitizer; in-harness monitors (sender / user-data / descriptor belong to the receiving context, messages received == messages its own deterministic program sent), alone-vs-concurrent differential of per-context counters, foreign-thread call matrix over every non-getter m_mod_* prototype with the owner parked on a barrier and, in a second round, parked inside a callback of the victim module; foreign threads polling the plain getters while the owner drives a module through its states",
                 text="Contexts with identical module names run loops, pub/sub, timers, descriptor and task sources concurrently; every TSan report with a library frame is a violation, per-context counters must equal those of the same seeds run sequentially, and every module call from a thread not owning the context must fail without effect. Schedules are sampled; race detection is per observed execution.",
                 ref="C14"),
     "C15": dict(tech="offline trace oracle: name table (live names, allow-replace), deny-pub/deny-sub/deny-ctx/persist/reserved-prefix rules applied to every restricted call with the callback stack known, refused sends tracked by unique payload so that 'nothing is delivered' is checked; perms profile (flag subsets x call classes x callback kinds x nesting); plain build, both modes",
                 text="Every restricted call in generated histories is judged with the flags of the calling module and the callback it was issued from: it must fail and leave no trace (no delivery, same source count, loop not quit, module still registered); equal names are registered in every order against incumbents with and without allow-replace.",
                 ref="C15"),
-    "C07": dict(tech="offline trace oracle: context existence / persistence / finalised model against return codes and the context observed (m_ctx_name, m_ctx_len) after every record, teardown post-conditions (all modules ZOMBIE, one stop callback each), calls without context incl. before the first registration of the process; ctx_lifecycle profile on plain and asan builds",
+    "C07": dict(tech="offline trace oracle: context existence / persistence / finalised model against return codes and the context observed (m_ctx_name, m_ctx_len) after every record, teardown post-conditions (all modules ZOMBIE, one stop callback each), calls without context incl. before the first registration of the process, a second registration attempted from deny-ctx callbacks, replacement of the only module, registrations made by stop callbacks of the teardown; ctx_lifecycle and ctx_gone profiles on plain and asan builds",
                 text="Generated register / finalize / loop / deregister cycles with every flag combination and module state mix are judged call by call; the asan build is included because an uncreated thread-specific key collides with the sanitizer's own keys.",
                 ref="C07"),
     "C18": dict(tech="offline trace oracle with one-sided real-time bounds from harness timestamps taken right before/after every call: pairwise success bound b + r*dt + 2, -EAGAIN calls without effect (state, source count, delivery), no -EAGAIN without a bucket or after its removal, bounded recovery probe after > 25 periods of dispatching, user timers vs keyed-set model; tokenbucket profile; plain build",
                 text="Throttled bursts from inside the running loop, exhaustion/recovery, re-configuration with user timers registered, rate 0 and stop/start are judged with a bound that is sound for any refill discipline (an exact tick-level model would over-specify); scheduling delays can only loosen the bound, never cause an alarm.",
                 ref="C18"),
-    "C17": dict(tech="offline trace oracle: handler-stack model per module checked at every handler invocation (4 distinguishable handler functions), become/unbecome admission and return codes, stack reset at stop; stash_become profile; plain build, both modes",
+    "C17": dict(tech="offline trace oracle: handler-stack model per module checked at every handler invocation (4 distinguishable handler functions), become/unbecome admission and return codes (a call refused with -EAGAIN changes nothing), stack reset at stop; stash_become profile (throttled and deny-ctx variants); plain build, both modes",
                 text="Every handler invocation, including stash replays, is attributed to the handler function that received it and compared with the top of the modelled stack; become/unbecome return codes and the reset at stop are judged call by call.",
                 ref="C16/C17"),
 }
